@@ -355,6 +355,44 @@ theorem expired_decision_within_one {p : Tally} (h : Premise p) {blk : Block}
   rw [expired_decision_eq_formula h he]
   exact ⟨fun hx => congrArg _ (this.1 hx), fun hx => this.2 (Except.ok.inj hx)⟩
 
+/-- **C04 clause 1 for `current_status` itself**: inside the premise, the status computed for a proposal stored Open
+that has expired is decided by the documented formula alone — Passed if `libPasses` (Yes weight present and the
+percentage, rounded up, reached; quorum over all votes cast, threshold over the opinions cast), Rejected otherwise;
+never Open, never an error. -/
+theorem expired_status_eq_formula {p : Tally} (h : Premise p) (ho : p.status = .open) {blk : Block}
+    (he : p.expires.isExpired blk = true) :
+    currentStatus p blk = .ok (if libPasses p.threshold p.totalWeight p.votes then .passed else .rejected) := by
+  obtain ⟨_, ⟨r, hr⟩, _⟩ := no_panic h blk
+  unfold currentStatus
+  rw [if_neg (by simp [ho]), expired_decision_eq_formula h he, ok_bind]
+  cases hl : libPasses p.threshold p.totalWeight p.votes with
+  | true => rfl
+  | false =>
+    rw [hr]
+    simp only [Bool.false_eq_true, if_false, ok_bind, he, Bool.or_true, if_true]
+    rfl
+
+/-- … for thresholds with at most 9 decimals: decided by the EXACT cross-multiplied rule. -/
+theorem expired_status_exact9 {p : Tally} (h : Premise p) (ho : p.status = .open) {blk : Block}
+    (he : p.expires.isExpired blk = true) (h9 : nineDecimals p.threshold) :
+    currentStatus p blk = .ok (if exactPasses p.threshold p.totalWeight p.votes then .passed else .rejected) := by
+  rw [expired_status_eq_formula h ho he, libPasses_eq_exact9 h.valid h.tally_le h.total_u64 h9]
+
+/-- … for 18-digit thresholds: Passed whenever the exact rule passes, Rejected whenever even the rule with one vote of
+slack fails. -/
+theorem expired_status_within_one {p : Tally} (h : Premise p) (ho : p.status = .open) {blk : Block}
+    (he : p.expires.isExpired blk = true) :
+    (exactPasses p.threshold p.totalWeight p.votes = true → currentStatus p blk = .ok .passed) ∧
+    (laxPasses p.threshold p.totalWeight p.votes = false → currentStatus p blk = .ok .rejected) := by
+  have hw := libPasses_within_one (v := p.votes) h.valid h.tally_le h.total_u64
+  rw [expired_status_eq_formula h ho he]
+  constructor
+  · intro hx; rw [hw.1 hx]; rfl
+  · intro hx
+    cases hl : libPasses p.threshold p.totalWeight p.votes with
+    | false => rfl
+    | true => rw [hw.2 hl] at hx; cases hx
+
 /-! ## 5. Early decisions are sound; never both -/
 
 /-- What `is_rejected` computes, as a pure formula. -/
@@ -765,5 +803,30 @@ def exAbove : Tally :=
 
 example : (Threshold.absoluteCount 11).validate 10 ≠ .ok () ∧
     isRejected exAbove ⟨1, 1⟩ = .error "underflow.u64" ∧ isPassed exAbove ⟨1, 1⟩ = .ok false := by decide
+
+/-- non-vacuity of `expired_status_eq_formula` / `expired_status_exact9`: `exQuorum` (premise above, stored Open,
+9-decimal threshold) expired at block 100: Passed by the formula; `exAllAbstain` expired: Rejected by the formula -/
+example : exQuorum.status = .open ∧ exQuorum.expires.isExpired ⟨100, 0⟩ = true ∧
+    libPasses exQuorum.threshold exQuorum.totalWeight exQuorum.votes = true ∧
+    exactPasses exQuorum.threshold exQuorum.totalWeight exQuorum.votes = true ∧
+    currentStatus exQuorum ⟨100, 0⟩ = .ok .passed ∧
+    libPasses exAllAbstain.threshold exAllAbstain.totalWeight exAllAbstain.votes = false := by decide
+example : nineDecimals exQuorum.threshold := ⟨⟨600000000, by decide⟩, ⟨400000000, by decide⟩⟩
+
+/-- **`is_rejected` is NOT complete, also for `AbsoluteCount`** (and likewise for `AbsolutePercentage`): it counts only No
+votes, so abstentions and vetoes that make passing impossible do not trigger it.  Total 10, count 6, five abstained:
+no completion of the outstanding 5 votes can reach 6 Yes, yet `is_rejected` is false (the proposal is reported Open
+until it expires, then Rejected).  So a `rejected_complete` converse of `rejected_sound` is false of the code for
+every threshold kind — not only because the quorum is ignored. -/
+theorem rejected_not_complete_count :
+    (∀ c : Votes, cast (plus ⟨0, 0, 5, 0⟩ c) ≤ 10 → libPasses (.absoluteCount 6) 10 (plus ⟨0, 0, 5, 0⟩ c) = false) ∧
+    libRejectsAt (.absoluteCount 6) 10 ⟨0, 0, 5, 0⟩ false = false ∧
+    isRejected ⟨.open, .absoluteCount 6, 10, ⟨0, 0, 5, 0⟩, .atHeight 100⟩ ⟨50, 0⟩ = .ok false ∧
+    currentStatus ⟨.open, .absoluteCount 6, 10, ⟨0, 0, 5, 0⟩, .atHeight 100⟩ ⟨50, 0⟩ = .ok .open := by
+  refine ⟨?_, by decide, by decide, by decide⟩
+  intro c hc
+  simp only [libPasses, libPassesAt, plus, Bool.and_eq_false_iff, decide_eq_false_iff_not]
+  simp only [cast, plus] at hc
+  right; omega
 
 end CwPlus.Props.C04
